@@ -910,6 +910,8 @@ def fixed_cexpr_cases():
         ("print", {"first": L(L(_r("nope")), _r("a"))}),                 # {{ [[nope], a]|first }}
         ("print", {"len": _r("nope")}),                                  # {{ nope|length }}
         ("native", L({"first": L(_r("nope"))})),                         # {@ [[nope]|first] @}
+        ("native", {"first": L(_c("tuple", ("", _r("nope")), ("", _r("a"))))}),       # {@ [(nope, a)]|first @}: the selected tuple holds it
+        ("native", {"last": L(_r("a"), _c("dict", ("k", L(_r("nope")))))}),           # {@ [a, {'k': [nope]}]|last @}
     ]
     out = []
     for form, e in shapes:
@@ -2074,7 +2076,7 @@ def run(ck: core.Check):
         "them — plus, 12 %: container expressions (list/tuple/dict/dict() literals nested 1–4 deep, the hole an element or a dict value at the innermost level, "
         "printed / concatenated left or right / returned natively) in three twins: hole = an undefined reference (7 ways of being missing), a defined one, "
         "a `|default`-protected missing name; 12 %: the same skeletons (nesting 1–3) with CONSUMERS wrapped around their container levels — |length, |first, |last, [i], |join('sep'), "
-        "stacked up to two high, also on the other operand of `~` — in the same three twins, plus 18 fixed shapes (the F-C16-d forms and their USED counterparts): whether the undefined hole is used "
+        "stacked up to two high, also on the other operand of `~` — in the same three twins, plus 20 fixed shapes (the F-C16-d forms and their USED counterparts): whether the undefined hole is used "
         "(error required AND found) or only counted / selected away (F-C16-d) is the Lean predicate `UsedUndef`; 28 hand-written container shapes outside the model (filters, loops, +, ~, index, dict key) × random names × the same three twins — half of "
         "them with ONE reference broken in one of 10 ways (misspelt root/field, missing attribute, field of a sibling record, index out of "
         "range, attribute of a string/list, step past an undefined, integer index on a record, case changed, loop variable outside its "
